@@ -48,6 +48,9 @@ for _s in ("terms", "goals", "strings", "mutants"):
     JOBS["syntax-" + _s] = dict(module="MC_Syntax", constants={"Slice": _s}, invariants=["Emit"], subst={"AtomCodes": "AtomCodesDef", "FmtPieces": "FmtPiecesDef"},
                                 timeout={"quick": 900, "thorough": 3600})
 
+JOBS["reader-layout"] = dict(module="MC_Reader", constants={"Slice": "layout"}, invariants=["ReaderCorrect", "AllLegal", "Emit"],
+                             timeout={"quick": 900, "thorough": 3600})
+
 UNIFY_ASSUME = [
     "pairs whose unification needs an occurs check are generated but excluded (counted under excluded_cases)",
     "the universe is bounded: terms of depth <= 2 over 2 atoms, 1 integer, 2 floats, 3 variables, $_, f/1 g/2 h/0, lists of <= 3 elements with and without tail",
@@ -84,6 +87,9 @@ PROPS = {
                 rule="all strings up to length 4 (5 in thorough) over a 24-symbol syntax alphabet, all single (thorough: sampled double) mutations of canonical goal / rule / term texts, and all canonical texts, through the 8 parser entry points; distinct = distinct input strings; non-trivial = every string (the oracle is 'returns')",
                 level_text="bounded-exhaustive exploration of the parser input space defined by the specification (alphabet, lengths, seed texts, mutation operators); the oracle is trivial (a value or an error, never a panic / hang), so this is exploration, not model checking of a behaviour",
                 assumptions=["the claim is exactly the enumerated space"]),
+    "C21": dict(jobs=["reader-layout"], level="model_checking",
+                rule="8 programs of 1-3 rules (facts with spaces in atoms, float literals, infix = + - > >= <, lists, disjunction, short facts) x every layout with at most 2 (thorough 3) deviations from one-rule-per-line: line break / indented break / tab / blank line after any continuation character, two rules on one line, trailing # % // comments and comment lines outside brackets; TLC runs the Reader machine over each layout (ReaderCorrect) and the real loader must produce the knowledge base of parse_rule on each rule",
+                assumptions=["pieces (where a line may legally end) are written out per rule in MC_Reader.tla; the harness joins them with single spaces to obtain the canonical rule text"]),
     "C06": dict(jobs=["unify-laws", "unify-plain", "unify-sess"], level="model_checking",
                 rule="every ordered pair of universe terms x every prior substitution (and every session of 2-3 unifications), enumerated by TLC; "
                      "non-trivial = the Unify machine takes at least one deref/bind/decompose/list step; distinct by (terms, prior)",
